@@ -433,6 +433,12 @@ void GradientProjection::destroyVPSC(IncSolver *vpsc) {
         }
     }
     if(unsatisfiableConstraints) {
+        // The entries reported by the previous iteration are replaced.
+        for(UnsatisfiableConstraintInfos::iterator i=
+                unsatisfiableConstraints->begin();
+                i!=unsatisfiableConstraints->end();++i) {
+            delete *i;
+        }
         unsatisfiableConstraints->clear();
         for(Constraints::iterator i=cs.begin();i!=cs.end();i++) {
             Constraint* c=*i;
